@@ -1,6 +1,6 @@
 (* C11Agree.v -- correspondence: observed result and final tree = the executable model, with the
    repair flags and SBOM suffix table read from the source by the translator. *)
-From LV Require Import Base FS FSFacts LayerShared.
+From LV Require Import Base Toml FS FSFacts LayerShared.
 From LV.Checks Require Import C11Hold.
 From LV Require Import ImpPrims ImpTypes.
 From LVGen Require GenLayerShared GenLayerSharedImp.
@@ -19,7 +19,20 @@ Definition model (c : case) : fs * result errno unit :=
          file-system effect and is accepted by res_agrees_read) *)
       let '(s', r) := GenLayerSharedImp.gen_read_layer (fun _ : bytes => Some tt) (c_layers c) (c_name c) (c_pre c) in
       (s', match r with Ok _ => Ok tt | Err e => Err e end)
+  (* write_layer / replace_layer_types as regenerated from shared.rs; the encoding and the parsing of the document
+     are parameters: the model writes a placeholder document, the comparison blanks the documents (doc_blank) *)
+  | OpWriteLayer => GenLayerSharedImp.gen_write_layer (fun _ : unit => Toml.TTbl []) (c_layers c) (c_name c) tt (c_pre c)
+  | OpReplaceTypes =>
+      GenLayerSharedImp.gen_replace_layer_types (Ty:=unit) (Md:=unit) (fun _ : bytes => Some (None, tt)) (fun _ => Toml.TTbl [])
+                                               (c_layers c) (c_name c) tt (c_pre c)
   end.
+
+(* where the model holds a document, the contents are not compared (the encoder is a parameter of the model) *)
+Definition doc_blank (ms : fs) (s : fs) : fs :=
+  map (fun kv => match pget (fst kv) ms, snd kv with
+                 | Some (File _ (Doc _)), File m _ => (fst kv, File m (Raw []))
+                 | _, _ => kv
+                 end) s.
 
 Definition res_agrees (o : c11_res) (m : result errno unit) : bool :=
   match o, m with
@@ -33,7 +46,7 @@ Definition res_agrees (o : c11_res) (m : result errno unit) : bool :=
 Definition model_regenerated (c : case) : fs * result errno unit :=
   match c_op c with
   | OpDeleteLayer => GenLayerSharedImp.gen_delete_layer (c_layers c) (c_name c) (c_pre c)
-  | OpRdr | OpRecreate | OpReadLayer => model c
+  | OpRdr | OpRecreate | OpReadLayer | OpWriteLayer | OpReplaceTypes => model c
   end.
 
 (* a parse error (ROther) ends a call whose file-system part went through *)
@@ -47,6 +60,13 @@ Definition agrees (c : case) : bool :=
   match c_op c with OpRecreate => true | _ => false end ||
   match c_op c with
   | OpReadLayer => let '(s', r) := model c in res_agrees_read (c_res c) r && fs_eqb s' (c_post c)
+  | OpWriteLayer => let '(s', r) := model c in res_agrees (c_res c) r && fs_eqb (doc_blank s' s') (doc_blank s' (c_post c))
+  | OpReplaceTypes =>
+      (* a document the real parser rejects (ROther): nothing is written *)
+      match c_res c with
+      | ROther => fs_eqb (c_post c) (c_pre c)
+      | _ => let '(s', r) := model c in res_agrees (c_res c) r && fs_eqb (doc_blank s' s') (doc_blank s' (c_post c))
+      end
   | _ => false
   end ||
   (let '(s', r) := model c in res_agrees (c_res c) r && fs_eqb s' (c_post c)) &&
